@@ -341,6 +341,14 @@ Next ==
 
 Spec == Init /\ [][Next]_vars
 
+(* C04, liveness form: under weak fairness of every goroutine (reader, processors, workers) and of the timers
+   (batch heartbeat, stream time-out heartbeat) every behaviour reaches and stays in the quiescent state, i.e.
+   every accepted event is finalized, no stream is left unattended, no batch unflushed. *)
+Fair == /\ WF_vars(ReadIn)
+        /\ \A p \in Procs : WF_vars(ProcStep(p))
+        /\ \A b \in UsedBatchers : WF_vars(FlushTimer(b)) /\ \A k \in Workers : WF_vars(BatchStep(b, k))
+FairSpec == Spec /\ Fair
+
 -----------------------------------------------------------------------------
 (* quiescence: everything read, nothing queued, nobody busy *)
 Quiescent ==
@@ -377,6 +385,8 @@ NoCodePanic == /\ \A p \in Procs : pr[p].pc = "attach" => ~st[pr[p].sid].att /\ 
                /\ \A p \in Procs : pr[p].pc = "blockget" /\ st[pr[p].sid].q = <<>> => st[pr[p].sid].away = st[pr[p].sid].com
 \* no wedge (safety form): when nothing can move, the system is quiescent
 NoStuck == (~ENABLED Next) => Quiescent
+
+EventuallyQuiescent == <>[]Quiescent
 
 (* behaviour export for replay: printed at quiescent states during simulation *)
 ExportSched == Quiescent => PrintT(ToJson([lines |-> lines, sched |-> sched]))
